@@ -27,6 +27,22 @@ from jsonpath.pointer import UNDEFINED
 from jsonpath.pointer import JSONPointer
 
 
+def _insert(
+    parent: MutableSequence[object], target: Union[int, str], value: object
+) -> None:
+    """Insert _value_ into the array _parent_ at index _target_ or, for "-", its end.
+
+    As per RFC 6902 section 4.1, the index must not be greater than the number of
+    elements in the array.
+    """
+    if target == "-":
+        parent.append(value)
+    elif isinstance(target, int) and -len(parent) <= target <= len(parent):
+        parent.insert(target, value)
+    else:
+        raise JSONPatchError("index out of range")
+
+
 class Op(ABC):
     """One of the JSON Patch operations."""
 
@@ -66,13 +82,7 @@ class OpAdd(Op):
 
         target = self.path.parts[-1]
         if isinstance(parent, MutableSequence):
-            if obj is UNDEFINED:
-                if target == "-":
-                    parent.append(self.value)
-                else:
-                    raise JSONPatchError("index out of range")
-            else:
-                parent.insert(int(target), self.value)
+            _insert(parent, target, self.value)
         elif isinstance(parent, MutableMapping):
             parent[str(target)] = self.value
         else:
@@ -268,7 +278,7 @@ class OpMove(Op):
             return source_obj  # type: ignore
 
         if isinstance(dest_parent, MutableSequence):
-            dest_parent.insert(int(self.dest.parts[-1]), source_obj)
+            _insert(dest_parent, self.dest.parts[-1], source_obj)
         elif isinstance(dest_parent, MutableMapping):
             dest_parent[str(self.dest.parts[-1])] = source_obj
         else:
@@ -310,7 +320,7 @@ class OpCopy(Op):
             return copy.deepcopy(source_obj)  # type: ignore
 
         if isinstance(dest_parent, MutableSequence):
-            dest_parent.insert(int(self.dest.parts[-1]), copy.deepcopy(source_obj))
+            _insert(dest_parent, self.dest.parts[-1], copy.deepcopy(source_obj))
         elif isinstance(dest_parent, MutableMapping):
             dest_parent[str(self.dest.parts[-1])] = copy.deepcopy(source_obj)
         else:
